@@ -29,12 +29,7 @@ def opInRange (nq nc : Nat) : COp P → Prop
 /-- an accepted call appends an operation whose indices are in range -/
 theorem op_inRange_of_call (c : Circ P) (call : Call P) (h : call.inRange c) : opInRange c.nq c.nc call.op := by
   unfold Call.inRange at h
-  cases call <;> simp only [Call.checks, Call.op, opInRange, List.mem_cons, List.mem_singleton, List.not_mem_nil,
-    forall_eq_or_imp, Reg.bound, or_false, forall_eq, List.mem_nil_iff, false_implies, implies_true, and_true,
-    IsEmpty.forall_iff] at h ⊢ <;> first | trivial | exact h | (exact h.1) | (exact ⟨h.1, h.2⟩) | skip
-  all_goals first
-    | (intro b hb; rcases hb with rfl | rfl; exacts [h.1, h.2])
-    | skip
+  cases call <;> simp_all [Call.checks, Call.op, opInRange, Reg.bound]
 
 def OpGood (nq nc : Nat) (op : COp P) : Prop :=
   opInRange nq nc op ∧ ∀ d ∈ opDefects nq op, d.exec = false
@@ -43,19 +38,19 @@ theorem gateDefects_exec {g : GateTerm P} {bits : List Nat} (h : ∀ d ∈ gateD
     gateOK g = true ∧ Gate.nrBits g = bits.length ∧ hasDup bits = false := by
   unfold gateDefects at h
   refine ⟨?_, ?_, ?_⟩
-  · by_contra hg
+  · apply Classical.byContradiction; intro hg
     have := h .unsupportedGate (by simp [hg])
     simp [Defect.exec] at this
-  · by_contra hg
+  · apply Classical.byContradiction; intro hg
     have := h .arity (by simp [hg])
     simp [Defect.exec] at this
-  · by_contra hg
+  · apply Classical.byContradiction; intro hg
     have := h .dupQubits (by simp [hg])
     simp [Defect.exec] at this
 
 theorem cbitsDefects_exec {cbits : List Nat} (h : ∀ d ∈ cbitsDefects cbits, d.exec = false) : ∀ b ∈ cbits, b < 64 := by
   intro b hb
-  by_contra hlt
+  apply Classical.byContradiction; intro hlt
   have hany : cbits.any (64 ≤ ·) = true := List.any_eq_true.mpr ⟨b, hb, by simp; omega⟩
   have := h .cbitGe64 (by simp [cbitsDefects, hany])
   simp [Defect.exec] at this
@@ -65,7 +60,9 @@ variable {α : Type} [Zero α] [One α] [Add α] [Mul α] [Neg α] [Sub α] [Amp
 variable {n N nc : Nat}
 
 local notation "SafeV" => Safe (W := α) noErr numericOnly
-local notation "QV" => fun x : VecState α × List Nat => VInv n N x.1 ∧ x.2.length = N
+/-- postcondition of an executed operation: shape invariant, one register word per shot -/
+abbrev QVp (n N : Nat) : VecState α × List Nat → Prop := fun x => VInv n N x.1 ∧ x.2.length = N
+local notation "QV" => QVp (α := α) n N
 
 theorem prog_bind_eq {W β γ : Type} (p : Prog W β) (f : β → Prog W γ) : (p >>= f) = p.bind f := rfl
 theorem prog_pure_eq {W β : Type} (b : β) : (Pure.pure b : Prog W β) = Prog.pure b := rfl
@@ -122,7 +119,9 @@ theorem controlWords_some (control : List Nat) (hc : ∀ b ∈ control, b < 64) 
   apply mapM_some_of_forall
   intro w _
   have hall : control.all shiftOk = true := List.all_eq_true.mpr fun b hb => by simp [shiftOk, hc b hb]
-  exact ⟨_, by simp [controlWord, hall, hl]⟩
+  unfold controlWord
+  rw [if_pos ⟨hall, hl⟩]
+  exact ⟨_, rfl⟩
 
 theorem execOp_vec_safe (ht : RouteTotal α (P := P) n) (hN : 0 < N) {s : VecState α} (hs : VInv n N s)
     {c : List Nat} (hc : c.length = N) {op : COp P} (hop : OpGood n nc op) :
@@ -135,11 +134,11 @@ theorem execOp_vec_safe (ht : RouteTotal α (P := P) n) (hN : 0 < N) {s : VecSta
     exact (applyGate_safe ht hs ⟨h1, h2, h3, hin⟩).bind fun s' hs' => .pure ⟨hs', hc⟩
   | cond control target g bits =>
     simp only [opDefects, List.mem_append] at hdef
-    obtain ⟨h1, h2, h3⟩ := gateDefects_exec (fun d hd => hdef d (Or.inl (Or.inl (Or.inl hd))))
-    have hcb := cbitsDefects_exec (fun d hd => hdef d (Or.inl (Or.inl (Or.inr hd))))
+    obtain ⟨h1, h2, h3⟩ := gateDefects_exec (fun d hd => hdef d (Or.inl (Or.inr hd)))
+    have hcb := cbitsDefects_exec (fun d hd => hdef d (Or.inl (Or.inl (Or.inl hd))))
     have hlen : control.length ≤ 64 := by
-      by_contra hgt
-      have := hdef .controlsGt64 (Or.inl (Or.inr (by simp; omega)))
+      apply Classical.byContradiction; intro hgt
+      have := hdef .controlsGt64 (Or.inl (Or.inl (Or.inr (by simp; omega))))
       simp [Defect.exec] at this
     obtain ⟨ws, hws, hwl⟩ := controlWords_some control hcb hlen c
     simp only [execOp, vecBackend, hws]
@@ -166,7 +165,7 @@ theorem execOp_vec_safe (ht : RouteTotal α (P := P) n) (hN : 0 < N) {s : VecSta
     simp only [opDefects, List.mem_append] at hdef
     have hcb := cbitsDefects_exec (fun d hd => hdef d (Or.inr hd))
     have hlen : cbits.length = n := by
-      by_contra hne
+      apply Classical.byContradiction; intro hne
       have := hdef .measureAllLen (Or.inl (by simp [hne]))
       simp [Defect.exec] at this
     simp only [execOp]
@@ -175,7 +174,7 @@ theorem execOp_vec_safe (ht : RouteTotal α (P := P) n) (hN : 0 < N) {s : VecSta
     simp only [opDefects, List.mem_append] at hdef
     have hcb := cbitsDefects_exec (fun d hd => hdef d (Or.inr hd))
     have hlen : cbits.length = n := by
-      by_contra hne
+      apply Classical.byContradiction; intro hne
       have := hdef .measureAllLen (Or.inl (by simp [hne]))
       simp [Defect.exec] at this
     simp only [execOp]
